@@ -66,6 +66,7 @@ def frontend_exec_paths(cx, fe):
         in_send = 0
         gate_ok = False
         loops = []
+        copies = []
         for i, ev in enumerate(p.ev):
             t = U(ev.node) if isinstance(ev.node, ast.AST) and ev.kind == 'cond' else ''
             if ev.kind == 'cond' and ev.frame.fid == 0:
@@ -113,11 +114,16 @@ def frontend_exec_paths(cx, fe):
                     payload = sub.args[0] if sub.args else None
                     fp.built.append(payload is not None and isinstance(payload, ast.Call) and callee_name(payload) == 'buildPacket'
                                     and U(payload.func.value) == 'self.framer')
-            elif ev.kind == 'assign' and ev.frame.fid == 0 and isinstance(ev.a, ast.Attribute):
-                tgt, val = U(ev.a), ev.node.value
-                if tgt in ('response.transaction_id', 'response.unit_id') and U(val) == tgt.replace('response.', 'request.'):
-                    if fp.send_calls == 0:
-                        fp.id_copies.add(tgt.split('.')[1])
+            elif ev.kind == 'assign' and isinstance(ev.a, ast.Attribute) and ev.a.attr in ('transaction_id', 'unit_id'):
+                # <message>.<id> = request.<id>, in execute itself or in a helper it calls: both sides are compared after
+                # substitution into the terms of execute's frame; which message it is is settled when it is sent
+                val = getattr(ev, '_sub', None)
+                tgt = getattr(ev, '_subt', None)
+                if val is not None and U(val) == 'request.' + ev.a.attr and isinstance(tgt, ast.Attribute):
+                    copies.append((ev.a.attr, U(tgt.value), fp.send_calls))
+        for attr, base, sent_before in copies:
+            if sent_before == 0 and (fp.response is None or base == U(fp.response)):
+                fp.id_copies.add(attr)
         # classify the response
         r = fp.response
         if r is not None:
